@@ -206,6 +206,9 @@ def run(ck):
     stored_final_block(ck, P)
     from .. import condparity
     ck.floor("SIB/ref-conditions", condparity.check(ck, P, "SIB/ref-conditions", only={"deflate_stored.c:deflate_stored", "deflate.c:deflate", "trees.c:zng_tr_flush_block", "trees.c:gen_bitlen", "trees.c:build_tree", "trees.c:scan_tree", "trees.c:build_bl_tree"}), 60)
+    # FDICT / DICTID of the zlib header
+    from . import c13 as _c13
+    _c13.deflate_set_dictionary(ck, P)
     # the gzip header CRC is part of the wrapper: each header byte enters it exactly once
     from . import c20
     c20.header_crc_once(ck, P)
